@@ -53,6 +53,18 @@ def build_value(ty: Ty, mv, memo=None):
         memo = {}
     if isinstance(ty, Opt):
         return None if mv is None else build_value(ty.inner, mv, memo)
+    from .ty import EnumOf
+    if isinstance(ty, EnumOf):
+        _ensure_repo_on_path()
+        if ty.pycls:
+            m, q = ty.pycls.split(":")
+            cls = getattr(importlib.import_module(m), q)
+        else:
+            _, _, cls = resolve_target(ty.cls)
+        try:
+            return cls(mv)
+        except ValueError:
+            return list(cls)[0]  # the model's string is no member's value: any member (views differ only there)
     if isinstance(ty, Rec):
         fields = {k: build_value(t, mv.get(k), memo) for k, t in ty.fields.items()} if isinstance(mv, dict) else {}
         if getattr(ty, "build_native", None) is not None:
